@@ -541,3 +541,36 @@ func g8aWaitApplied(l, f *Store, deadline time.Time) bool {
 		time.Sleep(20 * time.Millisecond)
 	}
 }
+
+// Exported aliases for the black-box (package store_test) checks of the group
+// that need the HTTP layer and therefore cannot live inside package store.
+var (
+	G8aNewStore       = g8aNewStore
+	G8aWaitLeaderSelf = g8aWaitLeaderSelf
+	G8aWaitApplied    = g8aWaitApplied
+	G8aDumpLive       = g8aDumpLive
+	G8aCloseQuiet     = g8aCloseQuiet
+	G8aFirstDiff      = g8aFirstDiff
+	G8aSummary        = g8aSummary
+	G8aPeersJSON      = g8aPeersJSON
+)
+
+// G8aOpts and G8aPeer are the exported names of the option/peer structs.
+type (
+	G8aOpts = g8aOpts
+	G8aPeer = g8aPeer
+)
+
+// G8aLayerAddr returns the address the store's layer listens on (valid before Open).
+func G8aLayerAddr(s *Store) string { return s.ly.Addr().String() }
+
+// G8aCloseLayer closes the store's network layer.
+func G8aCloseLayer(s *Store) { s.ly.Close() }
+
+// G8aNumSnapshots returns the number of snapshots in the node's snapshot store.
+func G8aNumSnapshots(s *Store) int {
+	if ss, ok := s.snapshotStore.(interface{ Len() int }); ok {
+		return ss.Len()
+	}
+	return -1
+}
